@@ -274,6 +274,70 @@ def replayStep (cfg : RCfg) (all final : List Rec) (r : Rep) (e : TEv) : Rep :=
           if s'.offset == o then { r0 with s := s' } else fail r s!"read(cut): recorded offset={o}, model offset={s'.offset}"
   | .serr _ => { r with nerr := r.nerr + 1 }
 
+/-! ### op `ftrace`: the Reader front (version tags) -/
+
+inductive FTEv
+  | start (v : Nat) (o : Int) | enq (v : Nat) (off : Int) | accept (ver mver : Nat) (off : Int) (isErr : Bool)
+  | drop (ver mver : Nat) | setOffset (o roff : Int) (v : Nat) (closed : Bool)
+
+def parseFTEv (s : String) : Option FTEv :=
+  match s.splitOn ":" with
+  | ["Start", v, o] => do pure (.start (← v.toNat?) (← o.toInt?))
+  | ["Enq", v, off] => do pure (.enq (← v.toNat?) (← off.toInt?))
+  | ["Accept", a, b, off, e] => do pure (.accept (← a.toNat?) (← b.toNat?) (← off.toInt?) (e == "true"))
+  | ["Drop", a, b] => do pure (.drop (← a.toNat?) (← b.toNat?))
+  | ["SetOffset", o, ro, v, c] => do pure (.setOffset (← o.toInt?) (← ro.toInt?) (← v.toNat?) (c == "true"))
+  | _ => none
+
+structure FRep where
+  version : Nat := 0                      -- r.version as far as the trace tells
+  starts : List (Nat × Int) := []          -- fetchers: tag, start offset (resolved)
+  enqs : List (Nat × Int) := []            -- (tag, offset) in recorded order
+  accepts : List (Nat × Int) := []         -- accepted messages (tag, offset) in order
+  pendSet : Option Int := none             -- a SetOffset that must be followed by a start at this offset
+  bad : Option String := none
+  prop : Bool := false
+
+def ffail (r : FRep) (p : Bool) (why : String) : FRep := if r.bad.isSome then r else { r with bad := some why, prop := p }
+
+def fReplay (first hwm : Int) (r : FRep) (e : FTEv) : FRep :=
+  if r.bad.isSome then r else
+  match e with
+  | .start v o =>
+    let o' := if o = -2 then first else if o = -1 then hwm else o
+    let r1 := match r.pendSet with
+      | some p => if p = o then { r with pendSet := none } else ffail r false s!"start at {o} after SetOffset({p})"
+      | none => r
+    if v = r.version + 1 then { r1 with version := v, starts := r1.starts ++ [(v, o')] }
+    else ffail r1 false s!"fetcher started with tag {v}, previous version {r.version}"
+  | .enq v off =>
+    if r.starts.any (·.1 == v) then { r with enqs := r.enqs ++ [(v, off)] } else ffail r false s!"message {off} enqueued with unknown tag {v}"
+  | .accept ver mver off isErr =>
+    if isErr then r
+    else if mver < ver then ffail r true s!"FetchMessage returned message {off} with stale tag {mver} < {ver}"
+    else if mver != r.version then ffail r true s!"FetchMessage returned message {off} of fetcher {mver}, current version {r.version}"
+    else { r with accepts := r.accepts ++ [(mver, off)] }
+  | .drop ver mver => if mver < ver then r else ffail r false s!"message with tag {mver} dropped by a call that captured version {ver}"
+  | .setOffset o roff v closed =>
+    if closed then r
+    else if o = roff || v = 0 then r               -- no-op / lazy start
+    else { r with pendSet := some o }
+
+/-- every fetcher enqueues, in order, the stored records at or above its start offset; what FetchMessage accepted from
+a fetcher is a prefix of what that fetcher enqueued -/
+def fCheck (all final : List Rec) (r : FRep) : FRep :=
+  r.starts.foldl (fun (r : FRep) (st : Nat × Int) =>
+    let enq := (r.enqs.filter (·.1 == st.1)).map (·.2)
+    let acc := (r.accepts.filter (·.1 == st.1)).map (·.2)
+    let storedAll := (all.map (·.1)).filter (fun x => st.2 ≤ x)
+    let last := enq.getLast?.getD (st.2 - 1)
+    let mustHave := (final.map (·.1)).filter (fun x => st.2 ≤ x && x ≤ last)
+    if !(enq.all (fun x => storedAll.contains x)) then ffail r true s!"fetcher {st.1} (start {st.2}) enqueued {enq}: not stored records at or above its start"
+    else if !(sortedRecs (enq.map (fun x => (x, 0)))) then ffail r true s!"fetcher {st.1} enqueued {enq}: not in increasing order"
+    else if !(mustHave.all (fun x => enq.contains x)) then ffail r true s!"fetcher {st.1} (start {st.2}) enqueued {enq}: skipped a stored record"
+    else if acc != enq.take acc.length then ffail r true s!"accepted from fetcher {st.1}: {acc}, enqueued: {enq}"
+    else r) r
+
 def variantOf (op : String) : Variant := if op.startsWith "legacy-" then .legacy else .fixed
 
 def step (line : String) : String :=
@@ -304,7 +368,21 @@ def step (line : String) : String :=
         | _, _, _, _ => "bad-op"
       else "bad-op"
     | some op, none =>
-      if op == "rtrace" then
+      if op == "ftrace" then
+        match (field ws "L").bind parseLayout, fieldInt ws "first", fieldInt ws "hwm",
+              (field ws "T").map (fun t => (t.splitOn ";").map parseFTEv) with
+        | some items, some first, some hwm, some evs =>
+          if evs.any (·.isNone) then "bad-op" else
+          let all := allRecords items
+          let final := match (field ws "truncn").bind (·.toNat?) with
+            | some tn => allRecords (items.drop tn)
+            | none => all
+          let r := fCheck all final ((evs.filterMap id).foldl (fReplay first hwm) {})
+          match r.bad with
+          | none => answer "ok" true
+          | some why => answer s!"rejected: {why}" (!r.prop)
+        | _, _, _, _ => "bad-op"
+      else if op == "rtrace" then
         match (field ws "L").bind parseLayout, (field ws "T").map (fun t => (t.splitOn ";").map parseTEv) with
         | some items, some evs =>
           if evs.any (·.isNone) then "bad-op" else
